@@ -116,3 +116,11 @@ Proof.
     + intros a. rewrite cnt_adjsubs. apply H3.
     + intros a. rewrite sden_or, den_adjsubs by apply H3. destruct c; reflexivity.
 Qed.
+
+Lemma under_var_in u off v pol : under u off (SVar v pol) -> In v (vleaves u).
+Proof.
+  intros H. remember (SVar v pol) as p eqn:E. induction H; try discriminate.
+  - injection E as -> ->. auto.
+  - simpl. apply in_or_app. auto.
+  - simpl. apply in_or_app. auto.
+Qed.
